@@ -114,13 +114,16 @@ def run(index: RepoIndex, rep) -> None:
               'C03.R1', FAST, 'fast_copy', fc.node.lineno, src(b[-1]),
               'fast_copy is not a deep copy (pickle round trip / copy.deepcopy): the copy '
               'would share mutable components with the original', 'fast_copy is deep')
-    fs = index.func(GW, 'GridWorld.functional_step')
-    w2 = walk_function(fs.node)
-    direct = [e for e in w2.events if e.kind == 'call'
-              and src(e.node.func) == 'self._transition_function']
-    rep.check(not direct, 'C03.R1', GW, 'GridWorld.functional_step', fs.node.lineno,
-              '; '.join(src(e.node) for e in direct) or 'functional_step',
-              'functional_step calls the in-place transition directly on its input state',
+    from ..view import step_wiring
+    sw = step_wiring(index)
+    fs = sw['func']
+    tcs = sw['tcalls']
+    okc = len(tcs) == 1 and sw['copy'] is not None and \
+        sw['copy_def'] == f'fast_copy({sw["state"]})'
+    rep.check(okc, 'C03.R1', GW, 'GridWorld.functional_step', fs.node.lineno,
+              '; '.join(src(e.node) for e in tcs) or 'functional_step',
+              'functional_step runs the in-place transition on something other than one fresh '
+              f'fast_copy of its input state (mutated: `{sw["copy"]}` = `{sw["copy_def"]}`)',
               'no direct in-place transition')
 
     # ---------------------------------------------------------------- R2
